@@ -38,6 +38,12 @@ func snapToGridFloat64(f float64, dp int) float64 {
 		if scaled > math.MaxFloat64 {
 			return f
 		}
+		if scaled < -math.MaxFloat64 || math.IsNaN(scaled) {
+			// Negative overflow, or 0 * +Inf when 10^dp itself overflows:
+			// the grid is finer than float64 can resolve at f, so f is
+			// already on it.
+			return f
+		}
 		return math.Round(scaled) / scale
 	case dp < 0:
 		scale := math.Pow10(-dp)
